@@ -14,6 +14,7 @@ TRUSTED = [
     "inspect.signature(f).parameters abstracted as a sequence of records (name, kind, has_default, default)",
     "caller view of dds_hash = its verified contract (contracts/hashing.py): spec_hash(value) or a coded error",
     "OrderedDict(list of (name, hash)) keeps list order (parameter names are distinct)",
+    "argument expressions seen in source are modelled as: Constant(value) | UnaryOp(op, operand) | any other node; which expressions denote which value is checked natively on 32 expressions (bounded complement)",
 ]
 ASSUMPTIONS = ["A-REC", "A-LOG", "positional arguments do not exceed the parameters (Python rejects the call otherwise)"]
 LEVEL_TEXT = "Deductive proof, for all parameter lists, argument tuples, keyword maps and default values, that the argument context is the parameter-wise hash of the binding."
@@ -26,3 +27,9 @@ REPLAY = {
 
 def specs():
     return [c() for c in fun_args_ctx.SPECS]
+
+
+def bounded(tier, seed, pr):
+    from pyvc.boundedrun import run_bounded
+
+    return [run_bounded(pr, "b_args.py", "spellings_and_literal_expressions")]
